@@ -138,6 +138,12 @@ def run_step(step, path, device_pin, devstate_path=None):
                     newpin_result=step.get("sgx_result"))
     if platform == "sgx":
         dev.unlocked = False
+    if step.get("running"):
+        # the manager finds the device already unlocked and in the signer (a pending PIN
+        # change stays pending); later the link fails, the device comes back locked in
+        # the bootloader, and the next request's repair goes through unlock (+ change)
+        dev.mode = 0x03
+        dev.unlocked = True
     if devstate_path:
         orig_ev = dev.ev
 
@@ -180,6 +186,8 @@ def run_step(step, path, device_pin, devstate_path=None):
                 try:
                     s.initialize()
                     obs["outcome"] = "served"
+                    if step.get("running"):
+                        obs["outcome"] = running_phase(s, dev, step, platform)
                 except HSM2ProtocolInterrupt:
                     obs["outcome"] = "interrupt"
                 except HSM2ProtocolError as e:
@@ -209,6 +217,32 @@ def run_step(step, path, device_pin, devstate_path=None):
         # tick at which the device accepted a new PIN
         obs["acked"] = [a[1] for a in dev.log if a and a[0] == "newpin"]
     return obs
+
+
+def running_phase(s, dev, step, platform):
+    """requests against the started manager: one hit by a link fault, then (device back
+    in the bootloader, locked) two more.  -> 'served' if the manager is still answering
+    requests at the end, 'interrupt' if it shut down"""
+    from comm.server import RequestHandlerShutdown
+    req = {"command": "getPubKey", "version": 5, "keyId": "m/44'/0'/0'/0/0"}
+    s.bus.arm({0: Fault(step["running"])})
+    r1, e1, _ = s.request(req)
+    s.bus.arm({})
+    if isinstance(e1, RequestHandlerShutdown):
+        return "interrupt"
+    dev.mode = MODE_BOOTLOADER
+    dev.unlocked = False
+    dev.pending_link = None
+    last = None
+    for _ in range(2):
+        r, e, _ = s.request(req)
+        if isinstance(e, RequestHandlerShutdown):
+            return "interrupt"
+        if e is not None:
+            return "other:%s" % type(e).__name__
+        last = r
+    # still answering requests (whatever the result code): the manager carried on
+    return "served"
 
 
 def new_pin_on_wire(apdus, platform):
@@ -406,6 +440,19 @@ def gen_histories(spec, tmpdir):
                 cases.append({"platform": platform, "start": start, "steps": [
                     {"platform": platform, "force": force},
                     {"platform": platform, "force": True, "crash": cp},
+                    {"platform": platform}]})
+            # manager started on an unlocked device with the change pending; link fault,
+            # device back in the bootloader: the repair performs the change
+            for lk in ("read_error", "write_error"):
+                if platform == "sgx":
+                    # socket errors are not classified as link failures by
+                    # HSM2Dongle._send_command: no repair is ever pending on SGX
+                    continue
+                cases.append({"platform": platform, "start": start, "steps": [
+                    {"platform": platform, "force": force, "running": lk},
+                    {"platform": platform}]})
+                cases.append({"platform": platform, "start": start, "steps": [
+                    {"platform": platform, "force": force, "running": lk, "fs_fault": "write"},
                     {"platform": platform}]})
             # fault-free change followed by restarts (incl. another forced change)
             cases.append({"platform": platform, "start": start, "steps": [
